@@ -7,6 +7,7 @@ open CaddyModel.C11
 #print axioms redirect_port_rule
 #print axioms redirect_exists_partial
 #print axioms only_catchAll_when_no_certs
+#print axioms redirect_on_every_https_interface
 #print axioms redirect_position
 #print axioms redirect_port_deterministic
 #print axioms redirect_sources_deterministic
